@@ -40,7 +40,7 @@ static HOOK: Once = Once::new();
 
 /// location and message of the most recent panic on this thread, if any
 pub fn last_panic() -> Option<(String, String)> {
-    LAST.with(|l| l.borrow().clone())
+    LAST.try_with(|l| l.borrow().clone()).ok().flatten()
 }
 
 pub fn install_hook() {
@@ -66,7 +66,8 @@ pub fn install_hook() {
             } else {
                 "<non-string payload>".to_string()
             };
-            LAST.with(|l| *l.borrow_mut() = Some((loc, msg)));
+            // (try_with: the hook may run while the thread's locals are being destroyed)
+            let _ = LAST.try_with(|l| *l.borrow_mut() = Some((loc, msg)));
             if verbose {
                 default(info);
             }
@@ -77,7 +78,7 @@ pub fn install_hook() {
 /// Run `f`, converting any unwind into a value.
 pub fn guarded<T>(f: impl FnOnce() -> T) -> Result<T, Unwind> {
     install_hook();
-    LAST.with(|l| *l.borrow_mut() = None);
+    let _ = LAST.try_with(|l| *l.borrow_mut() = None);
     match panic::catch_unwind(AssertUnwindSafe(f)) {
         Ok(v) => Ok(v),
         Err(payload) => {
@@ -88,8 +89,10 @@ pub fn guarded<T>(f: impl FnOnce() -> T) -> Result<T, Unwind> {
                 });
             }
             let (location, message) = LAST
-                .with(|l| l.borrow_mut().take())
-                .unwrap_or_else(|| ("?".into(), "?".into()));
+                .try_with(|l| l.borrow_mut().take())
+                .ok()
+                .flatten()
+                .unwrap_or_else(|| ("a thread-local destructor".into(), "?".into()));
             Err(Unwind::Code { location, message })
         }
     }
